@@ -61,6 +61,14 @@ def parse_trace(text):
             _, num, hx_ = line.split(' ', 2)
             if not cur['edits']: continue
             cur['edits'][-1].setdefault('tablehex', {})[int(num)] = hx_.strip()
+        elif line.startswith('GC live=') or (line.startswith('GC ') and 'GC live=' in line):
+            seg = line.split('GC live=')[-1]           # an unterminated state line (recovery's add_files) may precede
+            if ' dir=' in seg:
+                kv = dict(t.split('=', 1) for t in ('live=' + seg).split(' '))
+                cur.setdefault('gcs', []).append({'live': kv['live'], 'log': int(kv['log']), 'prev': int(kv['prev']), 'man': int(kv['man']),
+                                                  'dir': kv['dir'], 'rm': []})
+        elif line.startswith('GCRM '):
+            if cur.get('gcs'): cur['gcs'][-1]['rm'].append(line[5:].strip())
         elif line.startswith('LAYOUT '):
             cur['layout'] = line[7:]
         elif line.startswith('MANIFESTHEX '):
@@ -260,6 +268,20 @@ def validate(calls, ops, opts, model_exe, res, keys_known, check_every_layout=Tr
                 res.problem('harness-crash', call['idx'], op=opline)
                 break
             readable = sorted(set(snaps.values()))
+            # every obsolete-file collection observed during this call, replayed on the collector model (Gc.v)
+            for g in call.get('gcs', []):
+                res.stats['gc_events'] = res.stats.get('gc_events', 0) + 1
+                live = ','.join('%x' % int(t) for t in g['live'].split(',')) if g['live'] != '.' else '.'
+                mr = m.ask('gc_case %s %x %x %x %s' % (live, g['log'], g['prev'], g['man'], g['dir']))
+                mrm = mr.split(' rm=')[1] if ' rm=' in mr else '?'
+                want = set() if mrm == '.' else set(mrm.split(','))
+                got = set(g['rm'])
+                res.stats['gc_removed'] = res.stats.get('gc_removed', 0) + len(got)
+                if want != got:
+                    res.problem('gc-vs-model', call['idx'], op=opline,
+                                detail='the collector unlinked %s; the model of ldb_remove_obsolete_files (needed = referenced tables + pending outputs, logs >= log_number or prev_log, MANIFEST >= manifest number) unlinks %s'
+                                       % (sorted(bytes.fromhex(x).decode('latin1') for x in got - want) or 'nothing extra', sorted(bytes.fromhex(x).decode('latin1') for x in want - got) or 'nothing more'),
+                                state={k: g[k] for k in ('live', 'log', 'prev', 'man')}, listing=[bytes.fromhex(x).decode('latin1') for x in g['dir'].split(',')] if g['dir'] != '.' else [])
 
             def views():
                 d = {q: m.ask('e_view %x' % q) for q in readable}
